@@ -10,6 +10,7 @@ import (
 	"sort"
 	"strings"
 	"sync"
+	"syscall"
 	"testing"
 	"time"
 
@@ -120,6 +121,35 @@ func missingRefs(body []byte, has func(string) bool) []string {
 	return out
 }
 
+func blobPath(dir, d string) string {
+	alg, hx, _ := strings.Cut(d, ":")
+	return filepath.Join(dir, "blobs", alg, hx)
+}
+
+func ctimeOf(p string) (int64, bool) {
+	var st syscall.Stat_t
+	if err := syscall.Stat(p, &st); err != nil {
+		return 0, false
+	}
+	return st.Ctim.Sec*1e9 + st.Ctim.Nsec, true
+}
+
+// confirmMissing filters out references that were in fact published before the manifest.
+func confirmMissing(dir, manifest string, miss []string) []string {
+	mt, ok := ctimeOf(blobPath(dir, manifest))
+	if !ok {
+		return nil
+	}
+	var out []string
+	for _, c := range miss {
+		ct, exists := ctimeOf(blobPath(dir, c))
+		if !exists || ct > mt {
+			out = append(out, c)
+		}
+	}
+	return out
+}
+
 func looksLikeManifest(b []byte) bool {
 	if len(b) == 0 || b[0] != '{' {
 		return false
@@ -132,6 +162,21 @@ func looksLikeManifest(b []byte) bool {
 func (r *run) layoutState(when string) {
 	e := r.e
 	dir := e.Tgt.Dir
+	// The audit runs while the client may be writing. The index is read BEFORE the blobs are
+	// listed: everything published before the index was written is then in the listing (or is
+	// confirmed through its ctime below), so no correct run can look like a violation.
+	var lv *audit.LayoutView
+	var idxCtime int64
+	for try := 0; try < 5; try++ {
+		c1, ok1 := ctimeOf(filepath.Join(dir, "index.json"))
+		lv = audit.OpenLayout(dir)
+		c2, ok2 := ctimeOf(filepath.Join(dir, "index.json"))
+		if ok1 == ok2 && c1 == c2 {
+			idxCtime = c1
+			break
+		}
+		lv = nil
+	}
 	files := map[string][]byte{}
 	for _, alg := range []string{"sha256", "sha512"} {
 		ents, _ := os.ReadDir(filepath.Join(dir, "blobs", alg))
@@ -167,6 +212,14 @@ func (r *run) layoutState(when string) {
 			}
 		}
 		if miss := missingRefs(files[d], has); len(miss) > 0 {
+			// The directory listing is not atomic: a child published before the manifest can be
+			// missed by a listing that still sees the manifest. A reference counts as missing only
+			// if its file does not exist now, or was published (renamed into place: ctime) after
+			// the manifest file.
+			miss = confirmMissing(dir, d, miss)
+			if len(miss) == 0 {
+				continue
+			}
 			sig := "layout-manifest-before-children"
 			if n != nil && !knownManifestTypes[n.MediaType] {
 				sig = "unknown-type-index-entry-error-swallowed"
@@ -176,7 +229,9 @@ func (r *run) layoutState(when string) {
 		}
 	}
 	// tag invariant
-	lv := audit.OpenLayout(dir)
+	if lv == nil {
+		return // index kept changing under the audit
+	}
 	if lv.IdxErr != nil {
 		// the audit may race with the client creating the file: only content that was read and does not parse counts
 		if strings.Contains(lv.IdxErr.Error(), "not valid JSON") {
@@ -188,7 +243,16 @@ func (r *run) layoutState(when string) {
 		return
 	}
 	td, ok := lv.Tag(e.TgtTag)
-	r.tagInvariant(when, td, ok, has)
+	// content counts as present when it is in the listing, or exists and was published no later
+	// than the index that was read
+	hasAtIndex := func(d string) bool {
+		if has(d) {
+			return true
+		}
+		ct, exists := ctimeOf(blobPath(dir, d))
+		return exists && ct <= idxCtime
+	}
+	r.tagInvariant(when, td, ok, hasAtIndex)
 }
 
 func (r *run) tagInvariant(when string, td string, ok bool, has func(string) bool) {
